@@ -178,6 +178,15 @@ def build(S):
         S.under_contract(C08.FN_GEO, "hypnotoad.core.mesh:BoutMesh.writeArray")
         S.contract("geometry[assembly of global arrays]", C08.FN_GEO, C08.run_assembly, shape="4 regions, all values symbolic")
         S.contract("writeArray/writeCorners/writeArrayXDirection", "hypnotoad.core.mesh:BoutMesh.writeArray", C08.run_write_arrays, shape="nx=ny=2")
+        # the x-direction arrays (total_poloidal_distance, ShiftAngle) are FILLED on closed surfaces --
+        # NaN is documented outside the core only -- also when the closed chain has several regions
+        # (double null: inner_core + outer_core) or is a single region joined to itself
+        from . import chainkit
+
+        S.under_contract("hypnotoad.core.mesh:MeshRegion.calcPoloidalDistance", "hypnotoad.core.mesh:MeshRegion.calcZShift")
+        S.contract("calcPoloidalDistance[two-region closed chain: total filled]", "hypnotoad.core.mesh:MeshRegion.calcPoloidalDistance", chainkit.run_poloidal_distance(True, 0), shape="two regions, nx=1")
+        S.contract("calcPoloidalDistance[one closed region: total filled]", "hypnotoad.core.mesh:MeshRegion.calcPoloidalDistance", chainkit.run_poloidal_distance(True, 0, single=True), shape="one periodic region, nx=1")
+        S.contract("calcZShift[two-region closed chain: ShiftAngle filled]", "hypnotoad.core.mesh:MeshRegion.calcZShift", chainkit.run_zshift(True), shape="two regions, nx=1, ny=1", assume_safety="R>0 and Bp!=0 at the fine-contour nodes (geometry preconditions)")
         # refusal guard of connected double nulls whose separatrices differ (else the SOL grid folds over the second X-point)
         S.under_contract("hypnotoad.cases.tokamak:TokamakEquilibrium.describeDoubleNull")
         for topo in ("cdn_unbalanced", "cdn_upper_primary"):
